@@ -27,6 +27,8 @@ def cases(ctx):
     sizes = [1, 2, 64, 100, 256, 499, 500, 501, 1000, 1024] + ([] if ctx.quick else [10, 50, 128, 200, 250, 512, 2000, 2048, 4096, 5000, 10000])
     for i, sz in enumerate(sizes):
         yield "bulk", {"seed": ctx.subseed("bk", sz), "size": sz}
+    for i in range(ctx.pick(40, 4000)):
+        yield "two_stores", {"seed": ctx.subseed("ts", i)}
     algos = ["nsga2", "epsmoea", "omopso", "smpso", "psoga", "sweep", "scipy", "nlopt"]
     for i in range(ctx.pick(48, 4800)):
         yield "run", {"seed": ctx.subseed("r", i), "algo": algos[i % len(algos)]}
@@ -204,6 +206,55 @@ def run_case(ctx, name, params):
     if os.path.exists(path):
         os.unlink(path)
     try:
+        if name == "two_stores":
+            # two problems with different definitions, each with its own store file, written alternately; then two read-mode
+            # views alive at the same time: each returns its own file's content, also when looked at again after the other one
+            # was opened
+            path2 = path + ".b"
+            if os.path.exists(path2):
+                os.unlink(path2)
+            try:
+                probs, stores, models = [], [], []
+                for k_, pth in enumerate((path, path2)):
+                    n_, m_ = r.randint(1, 4), r.randint(1, 3)
+                    pk = hooks.make_problem(n=n_, m=m_, name="problem-%s-%d" % ("AB"[k_], r.randint(0, 99)),
+                                            bounds=[[float(-k_ - j_), float(1 + k_ + j_)] for j_ in range(n_)],
+                                            criteria=[r.choice(["minimize", "maximize"]) for _ in range(m_)])
+                    st = SqliteDataStore(pk, database_name=pth, thread_safe=r.random() < 0.7)
+                    pk.data_store = st
+                    probs.append(pk); stores.append(st); models.append({})
+                for _ in range(r.randint(2, 14)):
+                    k_ = r.randrange(2)
+                    ind = Individual([r.uniform(-1, 1) for _ in probs[k_].parameters])
+                    ind.costs = [r.uniform(0, 9) for _ in probs[k_].costs]
+                    ind.costs_signed = list(ind.costs) + [True]
+                    probs[k_].individuals.append(ind)
+                    stores[k_].sync_individual(ind)
+                    models[k_][ind.id] = snapshot(ind)
+                for st in stores:
+                    st.destroy()
+                wit = lambda extra=None: {"problems": [pk.name for pk in probs], "parameters": [len(pk.parameters) for pk in probs], "extra": extra}
+                order = r.choice([(0, 1), (1, 0)])
+                views = {}
+                for k_ in order:
+                    views[k_] = read_back(ctx, (path, path2)[k_], wit)
+                    if views[k_] is None:
+                        return
+                    if r.random() < 0.5 and not compare(ctx, views[k_], (path, path2)[k_], models[k_], probs[k_], wit, "two_stores_fresh"):
+                        return
+                for k_ in (order[0], order[1], order[0]):
+                    ctx.count("views_inspected_while_another_view_is_open")
+                    if not compare(ctx, views[k_], (path, path2)[k_], models[k_], probs[k_], wit, "two_stores"):
+                        return
+                ctx.nontrivial(("ts", params["seed"]))
+                ctx.count("cases")
+            finally:
+                for ext in ("", "-journal"):
+                    try:
+                        os.unlink(path2 + ext)
+                    except OSError:
+                        pass
+            return
         if name == "bulk":
             # sync_all over a record of a round size (batching boundaries), once and again after changes
             size = params["size"]
